@@ -91,6 +91,35 @@ def _old_table_accessors(ctx):
     return ctx.memo("old_table_accessors", build)
 
 
+def _pending_len_fns(ctx):
+    """private methods of the split table that return "the old table's length, or 0 when there is none":
+    `self.leftovers.as_ref().map_or(0, |lo| lo.table.len())` or `self.old_table().map_or(0, |t| t.len())`"""
+    def build():
+        out = set()
+        T = ctx.facts.types
+        for fb in ctx.facts.bodies.values():
+            if fb.kind == "Closure" or fb.arg_count != 1 or self_s_prefix(ctx, fb) is None or fb.loops() or T[fb.locals[0]["ty"]].get("s") != "usize":
+                continue
+            cc = [x for x in ctx.calls(fb) if not fb.is_cleanup(x.loc.bb)]
+            if len(cc) != 2 or cc[1].name != OPT + "map_or" or len(cc[1].args) != 3 or fb.op_const(cc[1].args[1]) != 0:
+                continue
+            if cc[1].dest is None or cc[1].dest["local"] not in (fb.ret_locals() | {0}):
+                continue
+            sd = fb.source_def(cc[1].args[0])
+            if sd is None or sd[1] != "call" or sd[0] != cc[0].loc:
+                continue
+            cbs = cc[1].closure_args() + cc[1].fn_value_args()
+            if not cbs:
+                continue
+            lc0 = cc[0].local_callee()
+            if cc[0].name in (OPT + "as_ref", OPT + "as_mut") and is_self_left(ctx, fb, cc[0].arg_path(0)) and _yields_old_len(ctx, cbs[0]):
+                out.add(fb.path)
+            elif lc0 is not None and lc0.path in _old_table_accessors(ctx) and is_self_s(ctx, fb, cc[0].arg_path(0)) and _yields_len_of_param(ctx, cbs[0]):
+                out.add(fb.path)
+        return out
+    return ctx.memo("pending_len_fns", build)
+
+
 def _yields_len_of_param(ctx, cb):
     """the closure does nothing but return the length of the (hashbrown) table it is handed"""
     cc = [x for x in ctx.calls(cb) if not cb.is_cleanup(x.loc.bb)]
@@ -208,6 +237,9 @@ class PathExec:
             if nm:
                 return V(nm + ver)
             return ("unknown", "%s of an unknown table" % c.method)
+        lc_ = c.local_callee()
+        if lc_ is not None and lc_.path in _pending_len_fns(ctx) and c.arg_path(0) is not None and is_self_s(ctx, b, c.arg_path(0)):
+            return V("oz" + ver)          # `self.pending_moves()`
         if c.method in ("max", "min") and (name.startswith("core::cmp::") or name.startswith("usize::") or "Ord" in (c.trait or "")) and len(args) == 2:
             return (c.method, args[0], args[1])
         if name.startswith("core::num::") or name.startswith("usize::"):
@@ -675,6 +707,20 @@ def rule_s_shrink(ctx):
         bad_head = None
         bad_full = None
         shown = None
+        # the caller's own bound is honoured: on every path (split or not) what is handed to hashbrown is at least the `min_size` the function was
+        # asked for — hashbrown then keeps capacity >= min(min_size, capacity) (C10); the resize headroom may only raise the bound, never replace it
+        req_params = [l for l in range(2, body.arg_count + 1) if ctx.facts.types[body.locals[l]["ty"]]["s"] == "usize"] if self_s_prefix(ctx, body) is not None else []
+        for p in paths:
+            arg0 = pe.op(p["env"], c.args[1])
+            if sx.find_unknown(arg0):
+                continue          # reported below as outside the size-expression class (on the paths where an old table may be pending)
+            for l in req_params:
+                okq, detq = sx.prove_ge(arg0, V("p:%s" % body.local_name(l)), 0, constraints=constraints_of(p["state"]))
+                if not okq:
+                    R.viol(key + ":request", c.where(), "shrink in %s: on a path (blocks %s) the bound %s handed to hashbrown is not provably >= the requested minimum `%s`: "
+                           "the table may end up smaller than the caller asked for (%s)" % (body.path, list(p["trail"]), sx.show(arg0), body.local_name(l), detq))
+                    req_params = []
+                    break
         for p in paths:
             st = p["state"]
             if st["left"] == N:
@@ -1162,6 +1208,8 @@ def _tested_or_grown_proof(ctx, body, c, sp):
                     qs = ctx.roles.s_prefix(q) if q is not None else None
                     if qs is not None and qs.strip_refs().key() == sp:
                         same = True
+                    elif qs is None and q is not None and q.strip_refs().key() == sp:
+                        same = True
         if same:
             est[nf[0]] = "the has-room edge of the capacity test at %s" % body.where(Loc(bb, len(body.stmts(bb))))
     G = _growers(ctx)
@@ -1260,6 +1308,8 @@ def rule_s_room(ctx):
                         qs = ctx.roles.s_prefix(q) if q is not None else None
                         if sp is not None and qs is not None and qs.strip_refs().key() == sp:
                             same = True
+                        elif sp is not None and qs is None and q is not None and q.strip_refs().key() == sp:
+                            same = True          # a helper of the split table itself (`self.spare() == 0`)
             if not same:
                 continue
             pe = PathExec(ctx, body)
